@@ -19,3 +19,6 @@ Definition net_out (l : list nat) : list Z :=
 (* index lists that may contain the sentinel *)
 Definition idx_out (n : nat) (l : list nat) : list Z :=
   map (fun d => if (n <=? d)%nat then -1 else Z.of_nat d) l.
+
+(* index list whose sentinel (-1) must map to the size of ANOTHER array *)
+Definition net_in_n (n : nat) (l : list Z) : list nat := map (fun v => if v <? 0 then n else Z.to_nat v) l.
